@@ -314,6 +314,7 @@ def main():
     engine_errors = []
     n_obl = n_dis = 0
     funcs = []
+    backends = {}
     trusted = set()
     samples = []
     solver_s = 0.0
@@ -325,6 +326,14 @@ def main():
                                              "pruned", "requires_sat", "solver_s", "wall_s", "assumed")})
         funcs[-1]["obligations"] = len(r["obligations"])
         funcs[-1]["discharged"] = sum(o["status"] == "discharged" for o in r["obligations"])
+        # which back end / phase of the discharge procedure closed each obligation (measured on this run)
+        by = {}
+        for o in r["obligations"]:
+            if o["status"] == "discharged":
+                by[o.get("reason") or "z3"] = by.get(o.get("reason") or "z3", 0) + 1
+        funcs[-1]["discharged_by"] = by
+        for k_, v_ in by.items():
+            backends[k_] = backends.get(k_, 0) + v_
         trusted.update(r.get("trusted", []))
         for q in r.get("assumed", []):
             trusted.add("assumed clause in contract of %s: %s" % (r["key"], q))
@@ -441,6 +450,7 @@ def main():
         "undecided": undecided,
         "known_findings_matched": [kf["_line"] for kf, _, _ in known_hits],
         "solver_time_s": round(solver_s, 2),
+        "discharged_by_backend": backends,
         "backend": "z3 5.1.0 (python API), default tactic, per-obligation timeout %ds" % budget,
         "bounded": {k: v for k, v in (bounded or {}).items() if k not in ("violations", "samples")} if bounded else None,
         "explanation": cfg.EXPLANATION,
